@@ -360,8 +360,13 @@ func (s *streamGRPC) decompress(dst *bytes.Buffer, b []byte) error {
 	if err != nil {
 		return err
 	}
-	if _, err := dst.ReadFrom(r); err != nil {
+	// Never inflate more than one byte over the limit.
+	max := int64(s.opts.maxReceiveMessageSize)
+	if _, err := dst.ReadFrom(io.LimitReader(r, max+1)); err != nil {
 		return err
+	}
+	if int64(dst.Len()) > max {
+		return fmt.Errorf("grpc: received message after decompression larger than max (%d vs. %d)", dst.Len(), max)
 	}
 	return nil
 }
